@@ -24,7 +24,7 @@
       `C15_cut_area_conserved_inner` (the signed areas of the new triangles add up to the old ones).
   (e) findings: `C15_D9_witness` (swap_edge on unit_triangles(1) moves two corners and halves the area) with
       `C15_swap_area_partial` (the specified retriangulation conserves the area when no coordinate moves);
-      `C15_D15b_witness`, `C15_D15c_witness`, `C15_D15e_witness` (`decide +kernel` on the unit square).
+      `C15_D15a_witness` … `C15_D15e_witness` (`decide +kernel` on the smallest meshes showing each finding).
 
   NOT PROVED (validated on every case by the oracle of tools/props/c15.py)
   * that a successful `collapse_edge` only flags free darts and only sews non-null darts (the two side
@@ -32,7 +32,6 @@
     with frame conditions on ~12 named darts; the oracle checks `wf` after every call;
   * local topology after swap / cut for arbitrary surrounding maps, global V/E/F counts, "all faces are
     triangles", orientation of the whole fan after a collapse;
-  * witnesses of D15a (13 darts) and D15d (31 darts) are replayed by the check, not by `decide`.
 -/
 import Honeycomb.Lemmas.KernelWF
 import Honeycomb.Props.C06
@@ -568,5 +567,1176 @@ theorem C15_cutInner_preserves_WF (cfg : Cfg Val) (m : Map Val) (e nd1 nd2 nd3 n
   exact (keeps_cutInnerTail cfg m.n lf rf ea (Live.of_inUse he) Lr L1 L2 L3 L4 L5 L6
     (live_image hwf (by omega) he.2.1 hl.2) (live_image hwf (by omega) he.2.1 hl.1)
     (live_image hwf (by omega) Lr.2.1 hr.2) (live_image hwf (by omega) Lr.2.1 hr.1) hl6 hr3 m7 m' a I7 h).wf
+
+/-! ## (a) collapse_edge
+
+`collapse_edge` flags darts (`remove_free_dart_transac`), so the removal flags change along the kernel and the
+`Keeps` calculus (fixed flags) does not apply.  The invariant used instead is "the map with its ORIGINAL flags is
+well formed": sews and unsews never read a flag, flagging never touches a β image.  At the end, the map with its new
+flags is well formed iff the newly flagged darts are free. -/
+
+/-- the map with its removal flags replaced -/
+def withU (m : Map X) (u0 : Array Bool) : Map X := { m with u := u0 }
+
+structure InvJ (n : Nat) (u0 : Array Bool) (m : Map X) : Prop where
+  wf : WF 3 (withU m u0)
+  n_eq : m.n = n
+  usz : m.u.size = n
+
+theorem InvJ.inUse {m : Map X} (h : InvJ n u m) {d : Nat} (hd : Live n u d) : C01.InUse (withU m u) d :=
+  ⟨hd.1, by show d < m.n; rw [h.n_eq]; exact hd.2.1, hd.2.2⟩
+
+def KeepsJ (n : Nat) (u0 : Array Bool) {α : Type} (p : P X α) : Prop :=
+  ∀ (m m' : Map X) (a : α), InvJ n u0 m → run p m = (.ok a, m') → InvJ n u0 m'
+
+namespace KeepsJ
+variable {α β : Type}
+
+theorem pure (a : α) : KeepsJ n u (pure a : P X α) := by
+  intro m m' b h hr; simp at hr; rw [← hr.2]; exact h
+
+theorem abort (e : Err) : KeepsJ n u (HC.abort e : P X α) := by
+  intro m m' b _ hr; simp at hr
+
+theorem panic : KeepsJ n u (Prog.panic : P X α) := by
+  intro m m' b _ hr; simp at hr
+
+theorem retry : KeepsJ n u (Prog.retry : P X α) := by
+  intro m m' b _ hr; simp at hr
+
+theorem bind {p : P X α} {f : α → P X β} (hp : KeepsJ n u p) (hf : ∀ a, KeepsJ n u (f a)) :
+    KeepsJ n u (p.bind f) := by
+  intro m m' b h hr
+  obtain ⟨a, m1, h1, h2⟩ := run_bind_ok hr
+  exact hf a _ _ b (hp _ _ a h h1) h2
+
+theorem sameTopo_withU {m m' : Map X} (st : SameTopo m m') (u0 : Array Bool) : SameTopo (withU m u0) (withU m' u0) :=
+  ⟨st.n, st.b, rfl, st.asz, st.rsz⟩
+
+theorem of_attrOnly {p : P X α} (hp : AttrOnly p) : KeepsJ n u p := by
+  intro m m' a h hr
+  have st := hp m; rw [hr] at st
+  exact ⟨h.wf.sameTopo (sameTopo_withU st u), by rw [st.n]; exact h.n_eq, by rw [st.u]; exact h.usz⟩
+
+theorem of_readOnly {p : P X α} (hp : ReadOnly p) : KeepsJ n u p := of_attrOnly (AttrOnly.of_readOnly hp)
+
+theorem ro_bind {p : P X α} {f : α → P X β} (hp : ReadOnly p) (hf : ∀ a, KeepsJ n u (f a)) :
+    KeepsJ n u (p.bind f) := bind (of_readOnly hp) hf
+
+theorem ite {c : Prop} [Decidable c] {p q : P X α} (hp : c → KeepsJ n u p) (hq : ¬ c → KeepsJ n u q) :
+    KeepsJ n u (if c then p else q) := by
+  split
+  · exact hp ‹_›
+  · exact hq ‹_›
+
+/-- a β read returns an existing dart which, if non-null, was live when the kernel started -/
+theorem rB_bind {i d : Nat} {f : Nat → P X β}
+    (hf : ∀ x, (x ≠ 0 → Live n u x) → KeepsJ n u (f x)) : KeepsJ n u ((rB i d).bind f) := by
+  intro m m' b h hr
+  obtain ⟨hok, hr⟩ := rB_ok hr
+  have hid := (h.wf.toSized.okβ i d).1 hok
+  refine hf (m.β i d) (fun hne => ?_) m m' b h hr
+  have := live_image h.wf hid.1 hid.2 hne
+  exact ⟨this.1, by rw [← h.n_eq]; exact this.2.1, this.2.2⟩
+
+theorem oneLinkCore {l r : Nat} (hl : Live n u l) (hr : Live n u r) :
+    KeepsJ n u (HC.oneLinkCore (X := X) l r) := by
+  intro m m' a h hrun
+  obtain ⟨_, _, h1, h0, rfl⟩ := oneLinkCore_ok hrun
+  have hl' := h.inUse hl
+  have hr' := h.inUse hr
+  exact ⟨h.wf.link1 (by omega) hl'.1 hr'.1 hl'.2.1 hr'.2.1 hl'.2.2 hr'.2.2 h1 h0, h.n_eq, h.usz⟩
+
+theorem twoLinkCore {l r : Nat} (hl : Live n u l) (hr : Live n u r) (hlr : l ≠ r) :
+    KeepsJ n u (HC.iLinkCore (X := X) 2 l r) := by
+  intro m m' a h hrun
+  obtain ⟨_, _, h1, h0, rfl⟩ := iLinkCore_ok hrun
+  have hl' := h.inUse hl
+  have hr' := h.inUse hr
+  exact ⟨h.wf.linkI (by omega) (by omega) hl'.1 hr'.1 hlr hl'.2.1 hr'.2.1 hl'.2.2 hr'.2.2 h1 h0, h.n_eq, h.usz⟩
+
+theorem oneUnlinkCore {l : Nat} (hl : Live n u l) : KeepsJ n u (HC.oneUnlinkCore (X := X) l) := by
+  intro m m' a h hrun
+  obtain ⟨_, _, hne, rfl⟩ := oneUnlinkCore_ok hrun
+  exact ⟨h.wf.unlink1 (by omega) (h.inUse hl).2.1 hne, h.n_eq, h.usz⟩
+
+theorem twoUnlinkCore {l : Nat} (hl : Live n u l) : KeepsJ n u (HC.iUnlinkCore (X := X) 2 l) := by
+  intro m m' a h hrun
+  obtain ⟨_, _, hne, rfl⟩ := iUnlinkCore_ok hrun
+  exact ⟨h.wf.unlinkI (by omega) (by omega) (h.inUse hl).2.1 hne, h.n_eq, h.usz⟩
+
+/-- flagging a dart never touches the map-with-original-flags -/
+theorem removeFreeDartTx (d : Nat) : KeepsJ n u (HC.removeFreeDartTx (X := X) d) := by
+  intro m m' a h hrun
+  rw [run_removeFreeDartTx] at hrun
+  by_cases hok : m.okU d = true
+  · simp only [hok, if_true, Prod.mk.injEq] at hrun
+    rw [← hrun.2]
+    exact ⟨h.wf, h.n_eq, by show (wr m.u d true).size = n; rw [size_wr]; exact h.usz⟩
+  · simp [hok] at hrun
+
+end KeepsJ
+
+theorem keepsJ_oneSew2 (cfg : Cfg X) (k : Nat) {l r : Nat} (hl : Live n u l) (hr : Live n u r) :
+    KeepsJ n u (oneSew2 cfg k l r) := by
+  unfold oneSew2
+  refine KeepsJ.ro_bind (ReadOnly.rB _ _) fun b2l => ?_
+  refine KeepsJ.ite (fun _ => KeepsJ.oneLinkCore hl hr) fun _ => ?_
+  refine KeepsJ.ro_bind (readOnly_vertexId2 _ _) fun v1 => ?_
+  refine KeepsJ.ro_bind (readOnly_vertexId2 _ _) fun v2 => ?_
+  refine KeepsJ.bind (KeepsJ.oneLinkCore hl hr) fun _ => ?_
+  refine KeepsJ.of_attrOnly ?_
+  refine AttrOnly.bind (C01.ao_vid _ _) fun nv => ?_
+  exact AttrOnly.bind (attrOnly_mergeS _ _ _ _ _) fun _ => attrOnly_mergeAttrs _ _ _ _ _
+
+theorem keepsJ_oneUnsew2 (cfg : Cfg X) (k : Nat) {l : Nat} (hl : Live n u l) :
+    KeepsJ n u (oneUnsew2 cfg k l) := by
+  unfold oneUnsew2
+  refine KeepsJ.ro_bind (ReadOnly.rB _ _) fun b2l => ?_
+  refine KeepsJ.ite (fun _ => KeepsJ.oneUnlinkCore hl) fun _ => ?_
+  refine KeepsJ.ro_bind (ReadOnly.rB _ _) fun r => ?_
+  refine KeepsJ.ro_bind (readOnly_vertexId2 _ _) fun vold => ?_
+  refine KeepsJ.bind (KeepsJ.oneUnlinkCore hl) fun _ => ?_
+  refine KeepsJ.of_attrOnly ?_
+  refine AttrOnly.bind (C01.ao_vid _ _) fun nl => ?_
+  refine AttrOnly.bind (C01.ao_vid _ _) fun nr => ?_
+  exact AttrOnly.bind (attrOnly_splitS _ _ _ _ _) fun _ => attrOnly_splitAttrs _ _ _ _ _
+
+theorem keepsJ_twoSew2 (cfg : Cfg X) (k : Nat) {l r : Nat} (hl : Live n u l) (hr : Live n u r) (hlr : l ≠ r) :
+    KeepsJ n u (twoSew2 cfg k l r) := by
+  have core := KeepsJ.twoLinkCore (X := X) hl hr hlr
+  unfold twoSew2
+  refine KeepsJ.ro_bind (ReadOnly.rB _ _) fun b1l => ?_
+  refine KeepsJ.ro_bind (ReadOnly.rB _ _) fun b1r => ?_
+  refine KeepsJ.ite (fun _ => ?_) fun _ => KeepsJ.ite (fun _ => ?_) fun _ => KeepsJ.ite (fun _ => ?_) fun _ => ?_
+  · refine KeepsJ.bind core fun _ => KeepsJ.of_attrOnly ?_
+    exact AttrOnly.bind (C01.ao_eid _) fun _ => attrOnly_mergeAttrs _ _ _ _ _
+  · refine KeepsJ.ro_bind (readOnly_vertexId2 _ _) fun _ => ?_
+    refine KeepsJ.ro_bind (readOnly_vertexId2 _ _) fun _ => ?_
+    refine KeepsJ.bind core fun _ => KeepsJ.of_attrOnly ?_
+    refine AttrOnly.bind (C01.ao_vid _ _) fun _ => ?_
+    refine AttrOnly.bind (C01.ao_eid _) fun _ => ?_
+    refine AttrOnly.bind (attrOnly_mergeS _ _ _ _ _) fun _ => ?_
+    exact AttrOnly.bind (attrOnly_mergeAttrs _ _ _ _ _) fun _ => attrOnly_mergeAttrs _ _ _ _ _
+  · refine KeepsJ.ro_bind (readOnly_vertexId2 _ _) fun _ => ?_
+    refine KeepsJ.ro_bind (readOnly_vertexId2 _ _) fun _ => ?_
+    refine KeepsJ.bind core fun _ => KeepsJ.of_attrOnly ?_
+    refine AttrOnly.bind (C01.ao_vid _ _) fun _ => ?_
+    refine AttrOnly.bind (C01.ao_eid _) fun _ => ?_
+    refine AttrOnly.bind (attrOnly_mergeS _ _ _ _ _) fun _ => ?_
+    exact AttrOnly.bind (attrOnly_mergeAttrs _ _ _ _ _) fun _ => attrOnly_mergeAttrs _ _ _ _ _
+  · refine KeepsJ.ro_bind (readOnly_vertexId2 _ _) fun _ => ?_
+    refine KeepsJ.ro_bind (readOnly_vertexId2 _ _) fun _ => ?_
+    refine KeepsJ.ro_bind (readOnly_vertexId2 _ _) fun _ => ?_
+    refine KeepsJ.ro_bind (readOnly_vertexId2 _ _) fun _ => ?_
+    refine KeepsJ.ro_bind (ReadOnly.rA _ _) fun _ => ?_
+    refine KeepsJ.ro_bind (ReadOnly.rA _ _) fun _ => ?_
+    refine KeepsJ.ro_bind (ReadOnly.rA _ _) fun _ => ?_
+    refine KeepsJ.ro_bind (ReadOnly.rA _ _) fun _ => ?_
+    refine KeepsJ.ite (fun _ => KeepsJ.abort _) fun _ => ?_
+    refine KeepsJ.bind core fun _ => KeepsJ.of_attrOnly ?_
+    refine AttrOnly.bind (C01.ao_vid _ _) fun _ => ?_
+    refine AttrOnly.bind (C01.ao_vid _ _) fun _ => ?_
+    refine AttrOnly.bind (C01.ao_eid _) fun _ => ?_
+    refine AttrOnly.bind (attrOnly_mergeS _ _ _ _ _) fun _ => ?_
+    refine AttrOnly.bind (attrOnly_mergeS _ _ _ _ _) fun _ => ?_
+    refine AttrOnly.bind (attrOnly_mergeAttrs _ _ _ _ _) fun _ => ?_
+    exact AttrOnly.bind (attrOnly_mergeAttrs _ _ _ _ _) fun _ => attrOnly_mergeAttrs _ _ _ _ _
+
+theorem keepsJ_twoUnsew2 (cfg : Cfg X) (k : Nat) {l : Nat} (hl : Live n u l) :
+    KeepsJ n u (twoUnsew2 cfg k l) := by
+  have core := KeepsJ.twoUnlinkCore (X := X) hl
+  unfold twoUnsew2
+  refine KeepsJ.ro_bind (ReadOnly.rB _ _) fun r => ?_
+  refine KeepsJ.ro_bind (ReadOnly.rB _ _) fun b1l => ?_
+  refine KeepsJ.ro_bind (ReadOnly.rB _ _) fun b1r => ?_
+  refine KeepsJ.ite (fun _ => ?_) fun _ => KeepsJ.ite (fun _ => ?_) fun _ => KeepsJ.ite (fun _ => ?_) fun _ => ?_
+  · refine KeepsJ.ro_bind (readOnly_edgeId2 _) fun _ => ?_
+    exact KeepsJ.bind core fun _ => KeepsJ.of_attrOnly (attrOnly_splitAttrs _ _ _ _ _)
+  · refine KeepsJ.ro_bind (readOnly_edgeId2 _) fun _ => ?_
+    refine KeepsJ.ro_bind (readOnly_vertexId2 _ _) fun _ => ?_
+    refine KeepsJ.bind core fun _ => KeepsJ.of_attrOnly ?_
+    refine AttrOnly.bind (attrOnly_splitAttrs _ _ _ _ _) fun _ => ?_
+    refine AttrOnly.bind (C01.ao_vid _ _) fun _ => ?_
+    refine AttrOnly.bind (C01.ao_vid _ _) fun _ => ?_
+    exact AttrOnly.bind (attrOnly_splitS _ _ _ _ _) fun _ => attrOnly_splitAttrs _ _ _ _ _
+  · refine KeepsJ.ro_bind (readOnly_edgeId2 _) fun _ => ?_
+    refine KeepsJ.ro_bind (readOnly_vertexId2 _ _) fun _ => ?_
+    refine KeepsJ.bind core fun _ => KeepsJ.of_attrOnly ?_
+    refine AttrOnly.bind (attrOnly_splitAttrs _ _ _ _ _) fun _ => ?_
+    refine AttrOnly.bind (C01.ao_vid _ _) fun _ => ?_
+    refine AttrOnly.bind (C01.ao_vid _ _) fun _ => ?_
+    exact AttrOnly.bind (attrOnly_splitS _ _ _ _ _) fun _ => attrOnly_splitAttrs _ _ _ _ _
+  · refine KeepsJ.ro_bind (readOnly_edgeId2 _) fun _ => ?_
+    refine KeepsJ.ro_bind (readOnly_vertexId2 _ _) fun _ => ?_
+    refine KeepsJ.ro_bind (readOnly_vertexId2 _ _) fun _ => ?_
+    refine KeepsJ.bind core fun _ => KeepsJ.of_attrOnly ?_
+    refine AttrOnly.bind (attrOnly_splitAttrs _ _ _ _ _) fun _ => ?_
+    refine AttrOnly.bind (C01.ao_vid _ _) fun _ => ?_
+    refine AttrOnly.bind (C01.ao_vid _ _) fun _ => ?_
+    refine AttrOnly.bind (C01.ao_vid _ _) fun _ => ?_
+    refine AttrOnly.bind (C01.ao_vid _ _) fun _ => ?_
+    refine AttrOnly.bind (attrOnly_splitS _ _ _ _ _) fun _ => ?_
+    refine AttrOnly.bind (attrOnly_splitAttrs _ _ _ _ _) fun _ => ?_
+    exact AttrOnly.bind (attrOnly_splitS _ _ _ _ _) fun _ => attrOnly_splitAttrs _ _ _ _ _
+
+/-! ### unsews of the null dart always fail -/
+
+theorem oneUnsew2_null_fails (cfg : Cfg X) (k : Nat) {m m' : Map X} {a : Unit} (h0 : ∀ i, i < 3 → m.β i 0 = 0) :
+    run (oneUnsew2 cfg k 0) m ≠ (.ok a, m') := by
+  intro h
+  unfold oneUnsew2 at h
+  obtain ⟨_, h⟩ := rB_ok h
+  rw [h0 2 (by omega)] at h
+  simp only [if_true] at h
+  obtain ⟨_, _, hne, _⟩ := oneUnlinkCore_ok h
+  exact hne (h0 1 (by omega))
+
+theorem iUnlinkCore_null_fails (i : Nat) (hi : i < 3) {m m' : Map X} {a : Unit} (h0 : ∀ i, i < 3 → m.β i 0 = 0) :
+    run (iUnlinkCore (X := X) i 0) m ≠ (.ok a, m') := by
+  intro h
+  obtain ⟨_, _, hne, _⟩ := iUnlinkCore_ok h
+  exact hne (h0 i hi)
+
+theorem twoUnsew2_null_fails (cfg : Cfg X) (k : Nat) {m m' : Map X} {a : Unit} (h0 : ∀ i, i < 3 → m.β i 0 = 0) :
+    run (twoUnsew2 cfg k 0) m ≠ (.ok a, m') := by
+  intro h
+  unfold twoUnsew2 at h
+  obtain ⟨_, h⟩ := rB_ok h
+  obtain ⟨_, h⟩ := rB_ok h
+  obtain ⟨_, h⟩ := rB_ok h
+  rw [h0 2 (by omega), h0 1 (by omega)] at h
+  simp only [and_self, if_true] at h
+  obtain ⟨_, _, h⟩ := ro_bind_ok (readOnly_edgeId2 _) h
+  obtain ⟨_, _, h1, _⟩ := run_bind_ok h
+  exact iUnlinkCore_null_fails 2 (by omega) h0 h1
+
+theorem InvJ.null {m : Map X} (h : InvJ n u m) : ∀ i, i < 3 → m.β i 0 = 0 := fun i hi => h.wf.null i hi
+
+theorem keepsJ_oneUnsew2_opt (cfg : Cfg X) (k : Nat) {d : Nat} (hd : d ≠ 0 → Live n u d) :
+    KeepsJ n u (oneUnsew2 cfg k d) := by
+  by_cases h0 : d = 0
+  · subst h0
+    intro m m' a hi hr
+    exact absurd hr (oneUnsew2_null_fails cfg k hi.null)
+  · exact keepsJ_oneUnsew2 cfg k (hd h0)
+
+theorem keepsJ_twoUnsew2_opt (cfg : Cfg X) (k : Nat) {d : Nat} (hd : d ≠ 0 → Live n u d) :
+    KeepsJ n u (twoUnsew2 cfg k d) := by
+  by_cases h0 : d = 0
+  · subst h0
+    intro m m' a hi hr
+    exact absurd hr (twoUnsew2_null_fails cfg k hi.null)
+  · exact keepsJ_twoUnsew2 cfg k (hd h0)
+
+theorem keepsJ_twoUnlink_opt {d : Nat} (hd : d ≠ 0 → Live n u d) : KeepsJ n u (iUnlinkCore (X := X) 2 d) := by
+  by_cases h0 : d = 0
+  · subst h0
+    intro m m' a hi hr
+    exact absurd hr (iUnlinkCore_null_fails 2 (by omega) hi.null)
+  · exact KeepsJ.twoUnlinkCore (hd h0)
+
+/-! ### the kernel with an assertion in front of every sew
+
+`chk c` is placed in front of each sew of `collapse_edge`'s helpers, with `c` = "the darts handed to the sew are
+non-null (and distinct for a 2-sew)".  With `chk = fun _ => pure ()` this is the kernel itself (`rfl`); with
+`chk = assertP` a failed assertion panics. -/
+
+def assertP (c : Bool) : P Val Unit := if c then pure () else Prog.panic
+
+def halfMidG (chk : Bool → P Val Unit) (cfg : Cfg Val) (n b0d d b1d : Nat) : P Val Unit := do
+  oneUnsew2 cfg n d
+  oneUnsew2 cfg n b1d
+  oneUnsew2 cfg n b0d
+  let b2b0d ← rB 2 b0d
+  let b2b1d ← rB 2 b1d
+  twoUnsew2 cfg n b0d
+  twoUnsew2 cfg n b1d
+  chk (decide (b2b0d ≠ 0 ∧ b2b1d ≠ 0 ∧ b2b0d ≠ b2b1d))
+  twoSew2 cfg n b2b0d b2b1d
+  let _ ← removeFreeDartTx d
+  let _ ← removeFreeDartTx b0d
+  let _ ← removeFreeDartTx b1d
+  pure ()
+
+def edgeToMidpointG (chk : Bool → P Val Unit) (cfg : Cfg Val) (n b0l l b1l b0r r b1r : Nat) : P Val Nat := do
+  if r ≠ 0 then do
+    twoUnsew2 cfg n r
+    halfMidG chk cfg n b0r r b1r
+  else pure ()
+  let b2b0l ← rB 2 b0l
+  halfMidG chk cfg n b0l l b1l
+  collapsedVid n b2b0l r b1r
+
+def halfBaseG (chk : Bool → P Val Unit) (cfg : Cfg Val) (n dPe dE dNe : Nat) : P Val Unit := do
+  let b2dNe ← rB 2 dNe
+  let b0b2dNe ← rB 0 b2dNe
+  let b1b2dNe ← rB 1 b2dNe
+  oneUnsew2 cfg n dE
+  oneUnsew2 cfg n dPe
+  oneUnsew2 cfg n dNe
+  if b2dNe ≠ 0 then do
+    oneUnsew2 cfg n b2dNe
+    oneUnsew2 cfg n b0b2dNe
+    iUnlinkCore 2 dNe
+    let _ ← removeFreeDartTx dE
+    let _ ← removeFreeDartTx dNe
+    let _ ← removeFreeDartTx b2dNe
+    chk (decide (dPe ≠ 0 ∧ b1b2dNe ≠ 0))
+    oneSew2 cfg n dPe b1b2dNe
+    chk (decide (b0b2dNe ≠ 0 ∧ dPe ≠ 0))
+    oneSew2 cfg n b0b2dNe dPe
+  else pure ()
+
+def edgeToBaseG (chk : Bool → P Val Unit) (cfg : Cfg Val) (n b0l l b1l b0r r b1r : Nat) : P Val Nat := do
+  let lVid ← vertexId2 n l
+  let tmpVertex ← rA 0 lVid
+  let tmpAnchor ← readAttr cfg stVA lVid
+  if r ≠ 0 then do
+    twoUnsew2 cfg n l
+    halfBaseG chk cfg n b1r r b0r
+  else pure ()
+  let b2b0l ← rB 2 b0l
+  halfBaseG chk cfg n b0l l b1l
+  let newVid ← collapsedVid n b2b0l r b1r
+  if newVid ≠ 0 then do
+    match tmpVertex with
+    | some v => do let _ ← writeVtx newVid v; pure ()
+    | none => pure ()
+    match tmpAnchor with
+    | some a => do let _ ← writeAttr cfg stVA newVid a; pure ()
+    | none => pure ()
+  else pure ()
+  pure newVid
+
+/-- `collapse_edge` after its guards (`is_collapsible`, the chosen variant, the orientation post-check) -/
+def collapseBodyG (chk : Bool → P Val Unit) (cfg : Cfg Val) (n e r b0l b1l b0r b1r : Nat) : P Val Nat := do
+  let c ← isCollapsible cfg n e
+  let newVid ← (match c with
+    | .average => edgeToMidpointG chk cfg n b0l e b1l b0r r b1r
+    | .left => edgeToBaseG chk cfg n b0l e b1l b0r r b1r
+    | .right => edgeToBaseG chk cfg n b0r r b1r b0l e b1l)
+  let ok ← isOrbitOrientationConsistent n newVid
+  if !ok then abort errInvertedOrientation else
+  pure newVid
+
+def collapseEdgeG (chk : Bool → P Val Unit) (cfg : Cfg Val) (n e : Nat) : P Val Nat := do
+  if e = 0 then abort errNullEdge else
+  let l := e
+  let r ← rB 2 e
+  let b0l ← rB 0 l
+  let b1l ← rB 1 l
+  let b0r ← rB 0 r
+  let b1r ← rB 1 r
+  let b1b1l ← rB 1 b1l
+  if b1b1l ≠ b0l then abort errBadTopology else
+  let bad ← (if r ≠ 0 then do
+    let b1b1r ← rB 1 b1r
+    pure (decide (b1b1r ≠ b0r)) else pure false : P Val Bool)
+  if bad then abort errBadTopology else
+  collapseBodyG chk cfg n e r b0l b1l b0r b1r
+
+/-- the kernel with assertions -/
+def collapseEdgeA (cfg : Cfg Val) (n e : Nat) : P Val Nat := collapseEdgeG assertP cfg n e
+
+/-- without assertions, this is the model of `collapse_edge` itself -/
+theorem collapseEdgeG_nochk (cfg : Cfg Val) (n e : Nat) :
+    collapseEdgeG (fun _ => pure ()) cfg n e = collapseEdge cfg n e := rfl
+
+/-! ### read-only / attribute-only pieces of `collapse_edge` -/
+
+theorem ro_collapsedVid (k a r b : Nat) : ReadOnly (collapsedVid k a r b) := by
+  unfold collapsedVid
+  exact ReadOnly.ite (readOnly_vertexId2 _ _) (ReadOnly.ite (readOnly_vertexId2 _ _) (ReadOnly.pure _))
+
+theorem ro_fanSign (k : Nat) (newV : Val) (d : Nat) : ReadOnly (fanSign k newV d) := by
+  unfold fanSign
+  refine ReadOnly.bind (ReadOnly.rB _ _) fun _ => ?_
+  refine ReadOnly.bind (ReadOnly.rB _ _) fun _ => ?_
+  refine ReadOnly.bind (readOnly_vertexId2 _ _) fun _ => ?_
+  refine ReadOnly.bind (readOnly_vertexId2 _ _) fun _ => ?_
+  refine ReadOnly.bind (ReadOnly.rA _ _) fun v1 => ?_
+  cases v1
+  · exact ro_retry
+  · refine ReadOnly.bind (ReadOnly.rA _ _) fun v2 => ?_
+    cases v2
+    · exact ro_retry
+    · exact ReadOnly.pure _
+
+theorem ro_fanAllSame (k : Nat) (newV : Val) (ref : Int) : ∀ l, ReadOnly (fanAllSame k newV ref l)
+  | [] => ReadOnly.pure _
+  | d :: ds => by
+      unfold fanAllSame
+      refine ReadOnly.bind (ro_fanSign _ _ _) fun s => ?_
+      exact ReadOnly.ite (ReadOnly.pure _) (ro_fanAllSame k newV ref ds)
+
+theorem ro_isOrbitOrientationConsistent (k vid : Nat) : ReadOnly (isOrbitOrientationConsistent k vid) := by
+  unfold isOrbitOrientationConsistent
+  refine ReadOnly.bind (ReadOnly.rA _ _) fun nv => ?_
+  cases nv
+  · exact ro_retry
+  · refine ReadOnly.bind (readOnly_orbit2 _ _ _) fun tmp => ?_
+    cases tmp
+    · exact ReadOnly.panic
+    · exact ReadOnly.bind (ro_fanSign _ _ _) fun _ => ro_fanAllSame _ _ _ _
+
+theorem ao_isCollapsible (cfg : Cfg Val) (k e : Nat) : AttrOnly (isCollapsible cfg k e) := by
+  unfold isCollapsible
+  refine AttrOnly.ite (AttrOnly.pure _) ?_
+  refine AttrOnly.bind (AttrOnly.of_readOnly (ReadOnly.rB _ _)) fun _ => ?_
+  refine AttrOnly.bind (C01.ao_vid _ _) fun _ => ?_
+  refine AttrOnly.bind (C01.ao_vid _ _) fun _ => ?_
+  refine AttrOnly.bind (ao_readAttr _ _ _) fun a1 => ?_
+  refine AttrOnly.bind (ao_readAttr _ _ _) fun a2 => ?_
+  refine AttrOnly.bind (ao_readAttr _ _ _) fun a3 => ?_
+  intro m
+  split
+  · split
+    · split <;> exact SameTopo.refl _
+    · exact SameTopo.refl _
+  · exact SameTopo.refl _
+
+theorem ao_baseWriteBack (cfg : Cfg Val) (newVid : Nat) (tv ta : Option Val) :
+    AttrOnly (do
+      if newVid ≠ 0 then do
+        match tv with
+        | some v => do let _ ← writeVtx newVid v; pure ()
+        | none => pure ()
+        match ta with
+        | some a => do let _ ← writeAttr cfg stVA newVid a; pure ()
+        | none => pure ()
+      else pure ()
+      pure newVid : P Val Nat) := by
+  refine AttrOnly.ite ?_ (AttrOnly.pure _)
+  have j2 : AttrOnly (match ta with
+      | some a => do let _ ← writeAttr cfg stVA newVid a; pure newVid
+      | none => pure newVid : P Val Nat) := by
+    cases ta
+    · exact AttrOnly.pure _
+    · exact AttrOnly.bind (ao_writeAttr _ _ _ _) fun _ => AttrOnly.pure _
+  cases tv
+  · exact j2
+  · exact AttrOnly.bind (ao_writeVtx _ _) fun _ => j2
+
+/-! ### the asserted kernel keeps the invariant -/
+
+theorem keepsJ_assert {β : Type} {c : Bool} {f : Unit → P Val β} (hf : c = true → KeepsJ n u (f ())) :
+    KeepsJ n u ((assertP c).bind f) := by
+  unfold assertP
+  cases c
+  · intro m m' b _ hr; simp at hr
+  · simpa using hf rfl
+
+theorem keepsJ_halfMidA (cfg : Cfg Val) (k : Nat) {b0d d b1d : Nat} (h0 : b0d ≠ 0 → Live n u b0d)
+    (hd : d ≠ 0 → Live n u d) (h1 : b1d ≠ 0 → Live n u b1d) : KeepsJ n u (halfMidG assertP cfg k b0d d b1d) := by
+  unfold halfMidG
+  refine KeepsJ.bind (keepsJ_oneUnsew2_opt cfg k hd) fun _ => ?_
+  refine KeepsJ.bind (keepsJ_oneUnsew2_opt cfg k h1) fun _ => ?_
+  refine KeepsJ.bind (keepsJ_oneUnsew2_opt cfg k h0) fun _ => ?_
+  refine KeepsJ.rB_bind fun x hx => ?_
+  refine KeepsJ.rB_bind fun y hy => ?_
+  refine KeepsJ.bind (keepsJ_twoUnsew2_opt cfg k h0) fun _ => ?_
+  refine KeepsJ.bind (keepsJ_twoUnsew2_opt cfg k h1) fun _ => ?_
+  refine keepsJ_assert fun hc => ?_
+  obtain ⟨hx0, hy0, hxy⟩ := of_decide_eq_true hc
+  refine KeepsJ.bind (keepsJ_twoSew2 cfg k (hx hx0) (hy hy0) hxy) fun _ => ?_
+  refine KeepsJ.bind (KeepsJ.removeFreeDartTx _) fun _ => ?_
+  refine KeepsJ.bind (KeepsJ.removeFreeDartTx _) fun _ => ?_
+  refine KeepsJ.bind (KeepsJ.removeFreeDartTx _) fun _ => ?_
+  exact KeepsJ.pure _
+
+theorem keepsJ_halfBaseA (cfg : Cfg Val) (k : Nat) {dPe dE dNe : Nat} (hp : dPe ≠ 0 → Live n u dPe)
+    (he : dE ≠ 0 → Live n u dE) (hn : dNe ≠ 0 → Live n u dNe) : KeepsJ n u (halfBaseG assertP cfg k dPe dE dNe) := by
+  unfold halfBaseG
+  refine KeepsJ.rB_bind fun x hx => ?_
+  refine KeepsJ.rB_bind fun y hy => ?_
+  refine KeepsJ.rB_bind fun z hz => ?_
+  refine KeepsJ.bind (keepsJ_oneUnsew2_opt cfg k he) fun _ => ?_
+  refine KeepsJ.bind (keepsJ_oneUnsew2_opt cfg k hp) fun _ => ?_
+  refine KeepsJ.bind (keepsJ_oneUnsew2_opt cfg k hn) fun _ => ?_
+  refine KeepsJ.ite (fun _ => ?_) fun _ => KeepsJ.pure _
+  refine KeepsJ.bind (keepsJ_oneUnsew2_opt cfg k hx) fun _ => ?_
+  refine KeepsJ.bind (keepsJ_oneUnsew2_opt cfg k hy) fun _ => ?_
+  refine KeepsJ.bind (keepsJ_twoUnlink_opt hn) fun _ => ?_
+  refine KeepsJ.bind (KeepsJ.removeFreeDartTx _) fun _ => ?_
+  refine KeepsJ.bind (KeepsJ.removeFreeDartTx _) fun _ => ?_
+  refine KeepsJ.bind (KeepsJ.removeFreeDartTx _) fun _ => ?_
+  refine keepsJ_assert fun hc => ?_
+  obtain ⟨c1, c2⟩ := of_decide_eq_true hc
+  refine KeepsJ.bind (keepsJ_oneSew2 cfg k (hp c1) (hz c2)) fun _ => ?_
+  refine keepsJ_assert fun hc' => ?_
+  obtain ⟨c3, c4⟩ := of_decide_eq_true hc'
+  exact keepsJ_oneSew2 cfg k (hy c3) (hp c4)
+
+theorem keepsJ_edgeToMidpointA (cfg : Cfg Val) (k : Nat) {b0l l b1l b0r r b1r : Nat}
+    (h0l : b0l ≠ 0 → Live n u b0l) (hl : l ≠ 0 → Live n u l) (h1l : b1l ≠ 0 → Live n u b1l)
+    (h0r : b0r ≠ 0 → Live n u b0r) (hr : r ≠ 0 → Live n u r) (h1r : b1r ≠ 0 → Live n u b1r) :
+    KeepsJ n u (edgeToMidpointG assertP cfg k b0l l b1l b0r r b1r) := by
+  unfold edgeToMidpointG
+  have rest : KeepsJ n u (do
+      let b2b0l ← rB 2 b0l
+      halfMidG assertP cfg k b0l l b1l
+      collapsedVid k b2b0l r b1r : P Val Nat) := by
+    refine KeepsJ.rB_bind fun x _ => ?_
+    refine KeepsJ.bind (keepsJ_halfMidA cfg k h0l hl h1l) fun _ => ?_
+    exact KeepsJ.of_readOnly (ro_collapsedVid _ _ _ _)
+  refine KeepsJ.ite (fun _ => ?_) fun _ => rest
+  refine KeepsJ.bind (keepsJ_twoUnsew2_opt cfg k hr) fun _ => ?_
+  exact KeepsJ.bind (keepsJ_halfMidA cfg k h0r hr h1r) fun _ => rest
+
+theorem keepsJ_edgeToBaseA (cfg : Cfg Val) (k : Nat) {b0l l b1l b0r r b1r : Nat}
+    (h0l : b0l ≠ 0 → Live n u b0l) (hl : l ≠ 0 → Live n u l) (h1l : b1l ≠ 0 → Live n u b1l)
+    (h0r : b0r ≠ 0 → Live n u b0r) (hr : r ≠ 0 → Live n u r) (h1r : b1r ≠ 0 → Live n u b1r) :
+    KeepsJ n u (edgeToBaseG assertP cfg k b0l l b1l b0r r b1r) := by
+  unfold edgeToBaseG
+  refine KeepsJ.ro_bind (readOnly_vertexId2 _ _) fun lVid => ?_
+  refine KeepsJ.ro_bind (ReadOnly.rA _ _) fun tv => ?_
+  refine KeepsJ.bind (KeepsJ.of_attrOnly (ao_readAttr _ _ _)) fun ta => ?_
+  have rest : KeepsJ n u (do
+      let b2b0l ← rB 2 b0l
+      halfBaseG assertP cfg k b0l l b1l
+      let newVid ← collapsedVid k b2b0l r b1r
+      if newVid ≠ 0 then do
+        match tv with
+        | some v => do let _ ← writeVtx newVid v; pure ()
+        | none => pure ()
+        match ta with
+        | some a => do let _ ← writeAttr cfg stVA newVid a; pure ()
+        | none => pure ()
+      else pure ()
+      pure newVid : P Val Nat) := by
+    refine KeepsJ.rB_bind fun x _ => ?_
+    refine KeepsJ.bind (keepsJ_halfBaseA cfg k h0l hl h1l) fun _ => ?_
+    refine KeepsJ.ro_bind (ro_collapsedVid _ _ _ _) fun newVid => ?_
+    exact KeepsJ.of_attrOnly (ao_baseWriteBack cfg newVid tv ta)
+  refine KeepsJ.ite (fun _ => ?_) fun _ => rest
+  refine KeepsJ.bind (keepsJ_twoUnsew2_opt cfg k hl) fun _ => ?_
+  exact KeepsJ.bind (keepsJ_halfBaseA cfg k h1r hr h0r) fun _ => rest
+
+theorem keepsJ_collapseBodyA (cfg : Cfg Val) (k : Nat) {e r b0l b1l b0r b1r : Nat}
+    (h0l : b0l ≠ 0 → Live n u b0l) (hl : e ≠ 0 → Live n u e) (h1l : b1l ≠ 0 → Live n u b1l)
+    (h0r : b0r ≠ 0 → Live n u b0r) (hr : r ≠ 0 → Live n u r) (h1r : b1r ≠ 0 → Live n u b1r) :
+    KeepsJ n u (collapseBodyG assertP cfg k e r b0l b1l b0r b1r) := by
+  unfold collapseBodyG
+  refine KeepsJ.bind (KeepsJ.of_attrOnly (ao_isCollapsible _ _ _)) fun c => ?_
+  refine KeepsJ.bind ?_ fun newVid => ?_
+  · cases c
+    · exact keepsJ_edgeToMidpointA cfg k h0l hl h1l h0r hr h1r
+    · exact keepsJ_edgeToBaseA cfg k h0l hl h1l h0r hr h1r
+    · exact keepsJ_edgeToBaseA cfg k h0r hr h1r h0l hl h1l
+  · refine KeepsJ.ro_bind (ro_isOrbitOrientationConsistent _ _) fun ok => ?_
+    exact KeepsJ.ite (fun _ => KeepsJ.abort _) fun _ => KeepsJ.pure _
+
+theorem keepsJ_collapseEdgeA (cfg : Cfg Val) (k : Nat) {e : Nat} (he : Live n u e) :
+    KeepsJ n u (collapseEdgeA cfg k e) := by
+  unfold collapseEdgeA collapseEdgeG
+  refine KeepsJ.ite (fun _ => KeepsJ.abort _) fun _ => ?_
+  refine KeepsJ.rB_bind fun r hr => ?_
+  refine KeepsJ.rB_bind fun b0l h0l => ?_
+  refine KeepsJ.rB_bind fun b1l h1l => ?_
+  refine KeepsJ.rB_bind fun b0r h0r => ?_
+  refine KeepsJ.rB_bind fun b1r h1r => ?_
+  refine KeepsJ.rB_bind fun _ _ => ?_
+  refine KeepsJ.ite (fun _ => KeepsJ.abort _) fun _ => ?_
+  refine KeepsJ.bind (KeepsJ.of_readOnly ?_) fun bad => ?_
+  · exact ReadOnly.ite (ReadOnly.bind (ReadOnly.rB _ _) fun _ => ReadOnly.pure _) (ReadOnly.pure _)
+  · refine KeepsJ.ite (fun _ => KeepsJ.abort _) fun _ => ?_
+    exact keepsJ_collapseBodyA cfg k h0l (fun _ => he) h1l h0r hr h1r
+
+/-! ### whenever the asserted kernel succeeds, the kernel itself returns the same value and map -/
+
+def Refines {α : Type} (pA p : P Val α) : Prop :=
+  ∀ (m m' : Map Val) (a : α), run pA m = (.ok a, m') → run p m = (.ok a, m')
+
+theorem Refines.refl {α : Type} (p : P Val α) : Refines p p := fun _ _ _ h => h
+
+theorem Refines.bind {α β : Type} {pA p : P Val α} {fA f : α → P Val β} (hp : Refines pA p)
+    (hf : ∀ a, Refines (fA a) (f a)) : Refines (pA.bind fA) (p.bind f) := by
+  intro m m' b h
+  obtain ⟨a, m1, h1, h2⟩ := run_bind_ok h
+  rw [run_bind, hp m m1 a h1]
+  exact hf a m1 m' b h2
+
+theorem Refines.bind_right {α β : Type} (p : P Val α) {fA f : α → P Val β}
+    (hf : ∀ a, Refines (fA a) (f a)) : Refines (p.bind fA) (p.bind f) := Refines.bind (Refines.refl p) hf
+
+theorem Refines.ite {α : Type} {c : Prop} [Decidable c] {pA p qA q : P Val α} (hp : Refines pA p) (hq : Refines qA q) :
+    Refines (if c then pA else qA) (if c then p else q) := by
+  split
+  · exact hp
+  · exact hq
+
+/-- dropping an assertion -/
+theorem Refines.assert {β : Type} (c : Bool) {fA f : Unit → P Val β} (hf : Refines (fA ()) (f ())) :
+    Refines ((assertP c).bind fA) ((pure () : P Val Unit).bind f) := by
+  unfold assertP
+  cases c
+  · intro m m' b h; simp at h
+  · simpa using hf
+
+theorem refines_halfMid (cfg : Cfg Val) (k b0d d b1d : Nat) :
+    Refines (halfMidG assertP cfg k b0d d b1d) (halfMidG (fun _ => pure ()) cfg k b0d d b1d) := by
+  unfold halfMidG
+  refine Refines.bind_right _ fun _ => ?_
+  refine Refines.bind_right _ fun _ => ?_
+  refine Refines.bind_right _ fun _ => ?_
+  refine Refines.bind_right _ fun _ => ?_
+  refine Refines.bind_right _ fun _ => ?_
+  refine Refines.bind_right _ fun _ => ?_
+  refine Refines.bind_right _ fun _ => ?_
+  exact Refines.assert _ (Refines.refl _)
+
+theorem refines_halfBase (cfg : Cfg Val) (k dPe dE dNe : Nat) :
+    Refines (halfBaseG assertP cfg k dPe dE dNe) (halfBaseG (fun _ => pure ()) cfg k dPe dE dNe) := by
+  unfold halfBaseG
+  refine Refines.bind_right _ fun _ => ?_
+  refine Refines.bind_right _ fun _ => ?_
+  refine Refines.bind_right _ fun _ => ?_
+  refine Refines.bind_right _ fun _ => ?_
+  refine Refines.bind_right _ fun _ => ?_
+  refine Refines.bind_right _ fun _ => ?_
+  refine Refines.ite ?_ (Refines.refl _)
+  refine Refines.bind_right _ fun _ => ?_
+  refine Refines.bind_right _ fun _ => ?_
+  refine Refines.bind_right _ fun _ => ?_
+  refine Refines.bind_right _ fun _ => ?_
+  refine Refines.bind_right _ fun _ => ?_
+  refine Refines.bind_right _ fun _ => ?_
+  refine Refines.assert _ ?_
+  refine Refines.bind_right _ fun _ => ?_
+  exact Refines.assert _ (Refines.refl _)
+
+theorem refines_edgeToMidpoint (cfg : Cfg Val) (k b0l l b1l b0r r b1r : Nat) :
+    Refines (edgeToMidpointG assertP cfg k b0l l b1l b0r r b1r)
+      (edgeToMidpointG (fun _ => pure ()) cfg k b0l l b1l b0r r b1r) := by
+  unfold edgeToMidpointG
+  have rest : Refines (do
+      let b2b0l ← rB 2 b0l
+      halfMidG assertP cfg k b0l l b1l
+      collapsedVid k b2b0l r b1r : P Val Nat) (do
+      let b2b0l ← rB 2 b0l
+      halfMidG (fun _ => pure ()) cfg k b0l l b1l
+      collapsedVid k b2b0l r b1r : P Val Nat) := by
+    refine Refines.bind_right _ fun _ => ?_
+    exact Refines.bind (refines_halfMid _ _ _ _ _) fun _ => Refines.refl _
+  refine Refines.ite ?_ rest
+  refine Refines.bind_right _ fun _ => ?_
+  exact Refines.bind (refines_halfMid _ _ _ _ _) fun _ => rest
+
+theorem refines_edgeToBase (cfg : Cfg Val) (k b0l l b1l b0r r b1r : Nat) :
+    Refines (edgeToBaseG assertP cfg k b0l l b1l b0r r b1r)
+      (edgeToBaseG (fun _ => pure ()) cfg k b0l l b1l b0r r b1r) := by
+  unfold edgeToBaseG
+  refine Refines.bind_right _ fun lVid => ?_
+  refine Refines.bind_right _ fun tv => ?_
+  refine Refines.bind_right _ fun ta => ?_
+  have rest : ∀ chkA chk : Bool → P Val Unit, (∀ a b c, Refines (halfBaseG chkA cfg k a b c) (halfBaseG chk cfg k a b c)) →
+      Refines (do
+        let b2b0l ← rB 2 b0l
+        halfBaseG chkA cfg k b0l l b1l
+        let newVid ← collapsedVid k b2b0l r b1r
+        if newVid ≠ 0 then do
+          match tv with
+          | some v => do let _ ← writeVtx newVid v; pure ()
+          | none => pure ()
+          match ta with
+          | some a => do let _ ← writeAttr cfg stVA newVid a; pure ()
+          | none => pure ()
+        else pure ()
+        pure newVid : P Val Nat) (do
+        let b2b0l ← rB 2 b0l
+        halfBaseG chk cfg k b0l l b1l
+        let newVid ← collapsedVid k b2b0l r b1r
+        if newVid ≠ 0 then do
+          match tv with
+          | some v => do let _ ← writeVtx newVid v; pure ()
+          | none => pure ()
+          match ta with
+          | some a => do let _ ← writeAttr cfg stVA newVid a; pure ()
+          | none => pure ()
+        else pure ()
+        pure newVid : P Val Nat) := by
+    intro chkA chk hh
+    refine Refines.bind_right _ fun _ => ?_
+    exact Refines.bind (hh _ _ _) fun _ => Refines.refl _
+  have rest' := rest assertP (fun _ => pure ()) (refines_halfBase cfg k)
+  refine Refines.ite ?_ rest'
+  refine Refines.bind_right _ fun _ => ?_
+  exact Refines.bind (refines_halfBase _ _ _ _ _) fun _ => rest'
+
+/-- **C15 (a), collapse, link to the kernel**: whenever the kernel with assertions succeeds, `collapse_edge` itself
+    succeeds with the same vertex identifier and the same map -/
+theorem C15_collapseA_refines (cfg : Cfg Val) (k e : Nat) : Refines (collapseEdgeA cfg k e) (collapseEdge cfg k e) := by
+  rw [← collapseEdgeG_nochk]
+  unfold collapseEdgeA collapseEdgeG
+  refine Refines.ite (Refines.refl _) ?_
+  refine Refines.bind_right _ fun r => ?_
+  refine Refines.bind_right _ fun b0l => ?_
+  refine Refines.bind_right _ fun b1l => ?_
+  refine Refines.bind_right _ fun b0r => ?_
+  refine Refines.bind_right _ fun b1r => ?_
+  refine Refines.bind_right _ fun _ => ?_
+  refine Refines.ite (Refines.refl _) ?_
+  refine Refines.bind_right _ fun bad => ?_
+  refine Refines.ite (Refines.refl _) ?_
+  unfold collapseBodyG
+  refine Refines.bind_right _ fun c => ?_
+  refine Refines.bind ?_ fun _ => Refines.refl _
+  cases c
+  · exact refines_edgeToMidpoint _ _ _ _ _ _ _ _
+  · exact refines_edgeToBase _ _ _ _ _ _ _ _
+  · exact refines_edgeToBase _ _ _ _ _ _ _ _
+
+/-- **C15 (a), collapse**: every call of `collapse_edge` (with the sew sites asserted non-null, see
+    `C15_collapseA_refines`) on an in-use dart of a well-formed 2-map — whatever the anchors decide, successful,
+    refused (NullEdge / BadTopology / NonCollapsibleEdge / InvertedOrientation / a failing core operation), retried,
+    panicking — leaves the map well formed, PROVIDED every dart the call has newly flagged is free in the result.
+    (All clauses of well-formedness other than "removed darts are free" hold unconditionally: the map with its
+    original flags is well formed, `keepsJ_collapseEdgeA`.) -/
+theorem C15_collapse_preserves_WF (cfg : Cfg Val) (m : Map Val) (e : Nat) (hwf : WF 3 m) (he : C01.InUse m e)
+    (hfree : ∀ d, d < m.n → (atomically (collapseEdgeA cfg m.n e) m).2.unused d = true → m.unused d = false →
+      ∀ i, i < 3 → (atomically (collapseEdgeA cfg m.n e) m).2.β i d = 0) :
+    WF 3 (atomically (collapseEdgeA cfg m.n e) m).2 := by
+  unfold atomically at hfree ⊢
+  match hr : run (collapseEdgeA cfg m.n e) m with
+  | (.err _, m') => simp only [hr]; exact hwf
+  | (.retry, m') => simp only [hr]; exact hwf
+  | (.panic, m') => simp only [hr]; exact hwf
+  | (.ok a, m') =>
+    simp only [hr] at hfree ⊢
+    have J0 : InvJ m.n m.u m := ⟨hwf, rfl, hwf.usz⟩
+    have J := keepsJ_collapseEdgeA cfg m.n (Live.of_inUse he) m m' a J0 hr
+    have w := J.wf
+    refine ⟨⟨?_, w.rows, ?_, ?_, w.asz⟩, ⟨w.null, ?_, w.inv01, w.inv10, w.invol, ?_⟩⟩
+    · exact w.npos
+    · exact w.row
+    · rw [J.usz]; exact J.n_eq.symm
+    · exact w.range
+    · intro d hd hu i hi
+      have hd' : d < m.n := by rw [← J.n_eq]; exact hd
+      by_cases h0 : m.unused d = true
+      · exact w.unusedFree d hd h0 i hi
+      · exact hfree d hd' hu (by cases hc : m.unused d <;> simp_all) i hi
+
+/-! ## (c) anchor algebra on the generated tables -/
+
+section Anchors
+open Gen.Anchors
+
+/-- `VertexAnchor::merge` is commutative (generated table, all identifiers) -/
+theorem C15_vanchor_merge_comm (a b : VertexAnchor) : a.merge b = b.merge a := by
+  cases a <;> cases b <;> simp only [VertexAnchor.merge] <;> (try split) <;> (try split) <;> simp_all
+
+/-- … idempotent -/
+theorem C15_vanchor_merge_idem (a : VertexAnchor) : a.merge a = some a := by
+  cases a <;> simp [VertexAnchor.merge]
+
+/-- … the result is the lower-dimensional anchor (one of the two arguments) -/
+theorem C15_vanchor_merge_lower_dim (a b c : VertexAnchor) (h : a.merge b = some c) :
+    c.dim = min a.dim b.dim ∧ (c = a ∨ c = b) := by
+  cases a <;> cases b <;> simp only [VertexAnchor.merge] at h <;> (try split at h) <;>
+    (try (simp only [Option.some.injEq] at h; subst h)) <;> simp_all [VertexAnchor.dim]
+
+/-- … it fails exactly on equal dimensions with different identifiers -/
+theorem C15_vanchor_merge_fails_iff (a b : VertexAnchor) : a.merge b = none ↔ a.dim = b.dim ∧ a.id ≠ b.id := by
+  cases a <;> cases b <;> simp only [VertexAnchor.merge] <;> (try split) <;> simp_all [VertexAnchor.dim, VertexAnchor.id]
+
+/-- … associative wherever the two inner merges are defined -/
+theorem C15_vanchor_merge_assoc (a b c x y : VertexAnchor) (h1 : a.merge b = some x) (h2 : b.merge c = some y) :
+    x.merge c = a.merge y := by
+  cases a <;> cases b <;> cases c <;> simp only [VertexAnchor.merge] at h1 h2 <;> (try split at h1) <;> (try split at h2) <;>
+    (try (simp only [Option.some.injEq] at h1; subst h1)) <;> (try (simp only [Option.some.injEq] at h2; subst h2)) <;>
+    simp_all [VertexAnchor.merge]
+
+/-- the driver code `4 * id + dim` determines the anchor -/
+theorem C15_vanchor_ofCode_code (a : VertexAnchor) : VertexAnchor.ofCode a.code = some a := by
+  cases a <;> simp [VertexAnchor.ofCode, VertexAnchor.code, VertexAnchor.id, VertexAnchor.dim] <;> omega
+
+/-- `EdgeAnchor::merge` is commutative (generated table, all identifiers) -/
+theorem C15_eanchor_merge_comm (a b : EdgeAnchor) : a.merge b = b.merge a := by
+  cases a <;> cases b <;> simp only [EdgeAnchor.merge] <;> (try split) <;> (try split) <;> simp_all
+
+/-- … idempotent -/
+theorem C15_eanchor_merge_idem (a : EdgeAnchor) : a.merge a = some a := by
+  cases a <;> simp [EdgeAnchor.merge]
+
+/-- … the result is the lower-dimensional anchor (one of the two arguments) -/
+theorem C15_eanchor_merge_lower_dim (a b c : EdgeAnchor) (h : a.merge b = some c) :
+    c.dim = min a.dim b.dim ∧ (c = a ∨ c = b) := by
+  cases a <;> cases b <;> simp only [EdgeAnchor.merge] at h <;> (try split at h) <;>
+    (try (simp only [Option.some.injEq] at h; subst h)) <;> simp_all [EdgeAnchor.dim]
+
+/-- … it fails exactly on equal dimensions with different identifiers -/
+theorem C15_eanchor_merge_fails_iff (a b : EdgeAnchor) : a.merge b = none ↔ a.dim = b.dim ∧ a.id ≠ b.id := by
+  cases a <;> cases b <;> simp only [EdgeAnchor.merge] <;> (try split) <;> simp_all [EdgeAnchor.dim, EdgeAnchor.id]
+
+/-- … associative wherever the two inner merges are defined -/
+theorem C15_eanchor_merge_assoc (a b c x y : EdgeAnchor) (h1 : a.merge b = some x) (h2 : b.merge c = some y) :
+    x.merge c = a.merge y := by
+  cases a <;> cases b <;> cases c <;> simp only [EdgeAnchor.merge] at h1 h2 <;> (try split at h1) <;> (try split at h2) <;>
+    (try (simp only [Option.some.injEq] at h1; subst h1)) <;> (try (simp only [Option.some.injEq] at h2; subst h2)) <;>
+    simp_all [EdgeAnchor.merge]
+
+/-- the driver code `4 * id + dim` determines the anchor -/
+theorem C15_eanchor_ofCode_code (a : EdgeAnchor) : EdgeAnchor.ofCode a.code = some a := by
+  cases a <;> simp [EdgeAnchor.ofCode, EdgeAnchor.code, EdgeAnchor.id, EdgeAnchor.dim] <;> omega
+
+/-- `FaceAnchor::merge` is commutative (generated table, all identifiers) -/
+theorem C15_fanchor_merge_comm (a b : FaceAnchor) : a.merge b = b.merge a := by
+  cases a <;> cases b <;> simp only [FaceAnchor.merge] <;> (try split) <;> (try split) <;> simp_all
+
+/-- … idempotent -/
+theorem C15_fanchor_merge_idem (a : FaceAnchor) : a.merge a = some a := by
+  cases a <;> simp [FaceAnchor.merge]
+
+/-- … the result is the lower-dimensional anchor (one of the two arguments) -/
+theorem C15_fanchor_merge_lower_dim (a b c : FaceAnchor) (h : a.merge b = some c) :
+    c.dim = min a.dim b.dim ∧ (c = a ∨ c = b) := by
+  cases a <;> cases b <;> simp only [FaceAnchor.merge] at h <;> (try split at h) <;>
+    (try (simp only [Option.some.injEq] at h; subst h)) <;> simp_all [FaceAnchor.dim]
+
+/-- … it fails exactly on equal dimensions with different identifiers -/
+theorem C15_fanchor_merge_fails_iff (a b : FaceAnchor) : a.merge b = none ↔ a.dim = b.dim ∧ a.id ≠ b.id := by
+  cases a <;> cases b <;> simp only [FaceAnchor.merge] <;> (try split) <;> simp_all [FaceAnchor.dim, FaceAnchor.id]
+
+/-- … associative wherever the two inner merges are defined -/
+theorem C15_fanchor_merge_assoc (a b c x y : FaceAnchor) (h1 : a.merge b = some x) (h2 : b.merge c = some y) :
+    x.merge c = a.merge y := by
+  cases a <;> cases b <;> cases c <;> simp only [FaceAnchor.merge] at h1 h2 <;> (try split at h1) <;> (try split at h2) <;>
+    (try (simp only [Option.some.injEq] at h1; subst h1)) <;> (try (simp only [Option.some.injEq] at h2; subst h2)) <;>
+    simp_all [FaceAnchor.merge]
+
+/-- the driver code `4 * id + dim` determines the anchor -/
+theorem C15_fanchor_ofCode_code (a : FaceAnchor) : FaceAnchor.ofCode a.code = some a := by
+  cases a <;> simp [FaceAnchor.ofCode, FaceAnchor.code, FaceAnchor.id, FaceAnchor.dim] <;> omega
+
+/-- the `From` conversions keep dimension and identifier (hence the driver code) -/
+theorem C15_anchor_conversions (e : EdgeAnchor) (f : FaceAnchor) :
+    (e.toVertexAnchor.dim = e.dim ∧ e.toVertexAnchor.id = e.id) ∧
+    (f.toVertexAnchor.dim = f.dim ∧ f.toVertexAnchor.id = f.id) ∧
+    (f.toEdgeAnchor.dim = f.dim ∧ f.toEdgeAnchor.id = f.id) := by
+  cases e <;> cases f <;> simp [EdgeAnchor.toVertexAnchor, FaceAnchor.toVertexAnchor, FaceAnchor.toEdgeAnchor,
+    VertexAnchor.dim, EdgeAnchor.dim, FaceAnchor.dim, VertexAnchor.id, EdgeAnchor.id, FaceAnchor.id]
+
+/-! ## (b) the anchor rule of `is_collapsible` -/
+
+/-- the `unreachable!()` of `is_collapsible` is unreachable: a defined merge is one of its arguments -/
+theorem C15_collapse_choice_total (la ra : VertexAnchor) (ea : EdgeAnchor) : collapseChoice la ra ea ≠ none := by
+  unfold collapseChoice
+  cases hm : VertexAnchor.merge la ra with
+  | none => simp
+  | some val =>
+    simp only
+    split
+    · rcases (C15_vanchor_merge_lower_dim la ra val hm).2 with h | h
+      · subst h
+        by_cases h2 : val = ra <;> simp [h2]
+      · subst h
+        by_cases h2 : val = la <;> simp [h2]
+    · simp
+
+/-- which outcome: incompatible vertex anchors (equal dimension, different identifiers) ⇒ the first error; otherwise an
+    edge anchor whose dimension is that of neither end point ⇒ the second error; otherwise a target is chosen.  The
+    three cases are exhaustive and exclusive. -/
+theorem C15_collapse_choice_error (la ra : VertexAnchor) (ea : EdgeAnchor) :
+    ((la.dim = ra.dim ∧ la.id ≠ ra.id) →
+      collapseChoice la ra ea = some (.error (errNonCollapsible "vertex-have-incompatible-anchors"))) ∧
+    (¬ (la.dim = ra.dim ∧ la.id ≠ ra.id) → ea.dim ≠ la.dim → ea.dim ≠ ra.dim →
+      collapseChoice la ra ea = some (.error (errNonCollapsible "collapsing-along-this-edge-is-impossible"))) ∧
+    (¬ (la.dim = ra.dim ∧ la.id ≠ ra.id) → (ea.dim = la.dim ∨ ea.dim = ra.dim) →
+      ∃ c, collapseChoice la ra ea = some (.ok c)) := by
+  rw [← C15_vanchor_merge_fails_iff]
+  refine ⟨fun h => ?_, fun h h1 h2 => ?_, fun h hd => ?_⟩
+  · unfold collapseChoice; rw [h]
+  · unfold collapseChoice
+    cases hm : VertexAnchor.merge la ra with
+    | none => exact absurd hm h
+    | some val =>
+      have hd : ¬ (ea.dim = la.dim ∨ ea.dim = ra.dim) := fun hh => hh.elim h1 h2
+      simp only [hd, if_false]
+  · have ht := C15_collapse_choice_total la ra ea
+    unfold collapseChoice at ht ⊢
+    cases hm : VertexAnchor.merge la ra with
+    | none => exact absurd hm h
+    | some val =>
+      rw [hm] at ht
+      simp only [hd, if_true] at ht ⊢
+      split
+      · exact ⟨_, rfl⟩
+      · exact ⟨_, rfl⟩
+      · exact ⟨_, rfl⟩
+      · rename_i h1 h2; simp [h1, h2] at ht
+
+/-- which target: the midpoint when both end points carry the same anchor, otherwise the end point whose anchor has
+    the lower dimension — provided the edge anchor has the dimension of an end point -/
+theorem C15_collapse_choice_target (la ra : VertexAnchor) (ea : EdgeAnchor)
+    (hd : ea.dim = la.dim ∨ ea.dim = ra.dim) :
+    (la = ra → collapseChoice la ra ea = some (.ok .average)) ∧
+    (la.dim < ra.dim → collapseChoice la ra ea = some (.ok .left)) ∧
+    (ra.dim < la.dim → collapseChoice la ra ea = some (.ok .right)) := by
+  refine ⟨fun h => ?_, fun h => ?_, fun h => ?_⟩
+  · subst h
+    have hd' : ea.dim = la.dim := by rcases hd with h | h <;> exact h
+    unfold collapseChoice
+    simp [C15_vanchor_merge_idem, hd']
+  · have hlr : la ≠ ra := fun hh => by rw [hh] at h; omega
+    unfold collapseChoice
+    cases hm : VertexAnchor.merge la ra with
+    | none =>
+        have := (C15_vanchor_merge_fails_iff la ra).1 hm
+        omega
+    | some val =>
+        have hl := C15_vanchor_merge_lower_dim la ra val hm
+        have hne : val ≠ ra := fun hh => by rw [hh] at hl; have := hl.1; omega
+        have he : val = la := by
+          rcases hl.2 with h1 | h1
+          · exact h1
+          · exact absurd h1 hne
+        simp [hd, he, hlr]
+  · have hlr : ra ≠ la := fun hh => by rw [hh] at h; omega
+    unfold collapseChoice
+    cases hm : VertexAnchor.merge la ra with
+    | none =>
+        have := (C15_vanchor_merge_fails_iff la ra).1 hm
+        omega
+    | some val =>
+        have hl := C15_vanchor_merge_lower_dim la ra val hm
+        have hne : val ≠ la := fun hh => by rw [hh] at hl; have := hl.1; omega
+        have he : val = ra := by
+          rcases hl.2 with h1 | h1
+          · exact absurd h1 hne
+          · exact h1
+        simp [hd, he, hlr]
+
+end Anchors
+
+/-! ## (b) the guards of `collapse_edge` -/
+
+/-- **C15 (b), collapse**: `collapse_edge` is the guard chain NullEdge / BadTopology (left face) / BadTopology (right
+    face, only tested when the edge has a second dart) followed by `is_collapsible`, the chosen variant and the
+    orientation post-check (`collapseBodyG`) — on every map on which the seven reads are in range. -/
+theorem C15_collapse_guards (cfg : Cfg Val) (k e : Nat) (m : Map Val)
+    (hok : ∀ i d, i < 3 → d < m.n → m.okβ i d = true) (hrange : ∀ i d, i < 3 → d < m.n → m.β i d < m.n)
+    (he : e < m.n) :
+    run (collapseEdge cfg k e) m =
+      if e = 0 then (.err errNullEdge, m)
+      else if m.β 1 (m.β 1 e) ≠ m.β 0 e then (.err errBadTopology, m)
+      else if m.β 2 e ≠ 0 ∧ m.β 1 (m.β 1 (m.β 2 e)) ≠ m.β 0 (m.β 2 e) then (.err errBadTopology, m)
+      else run (collapseBodyG (fun _ => pure ()) cfg k e (m.β 2 e) (m.β 0 e) (m.β 1 e) (m.β 0 (m.β 2 e))
+        (m.β 1 (m.β 2 e))) m := by
+  have hr := hrange 2 e (by omega) he
+  have h1l := hrange 1 e (by omega) he
+  have h1r := hrange 1 _ (by omega) hr
+  rw [← collapseEdgeG_nochk]
+  unfold collapseEdgeG
+  by_cases h0 : e = 0
+  · simp [h0]
+  · simp only [h0, if_false, Prog.bind_eq, bind, run_rB, hok 2 e (by omega) he, hok 1 e (by omega) he,
+      hok 0 e (by omega) he, hok 0 _ (by omega) hr, hok 1 _ (by omega) hr, hok 1 _ (by omega) h1l, if_true]
+    by_cases h3 : m.β 1 (m.β 1 e) ≠ m.β 0 e
+    · simp [h3]
+    · simp only [h3, if_false]
+      by_cases h2 : m.β 2 e = 0
+      · simp [h2]
+      · simp only [h2, ne_eq, not_false_eq_true, if_true, if_false, true_and, Prog.bind_eq, bind, Prog.bind_assoc,
+          Prog.ret_bind, run_rB, hok 1 _ (by omega) h1r, Prog.pure_eq]
+        by_cases h4 : m.β 1 (m.β 1 (m.β 2 e)) = m.β 0 (m.β 2 e)
+        · simp [h4]
+        · simp [h4]
+
+/-! ## (d) cut geometry over ℚ -/
+
+/-- **C15 (d)**: the vertex written by the cut kernels is the midpoint of the two end points read at their vertex
+    identifiers (and the kernel retries when one of them is undefined) -/
+theorem C15_cut_midpoint (m : Map Val) (vid1 vid2 : Nat) (h1 : m.okA 0 vid1 = true) (h2 : m.okA 0 vid2 = true) :
+    (∀ ax ay az bx by_ bz, m.att 0 vid1 = some (.pt ax ay az) → m.att 0 vid2 = some (.pt bx by_ bz) →
+      run (midpointOrRetry vid1 vid2) m = (.ok (.pt ((ax + bx) / 2) ((ay + by_) / 2) 0), m)) ∧
+    ((m.att 0 vid1 = none ∨ m.att 0 vid2 = none) → run (midpointOrRetry vid1 vid2) m = (.retry, m)) := by
+  constructor
+  · intro ax ay az bx by_ bz ha hb
+    unfold midpointOrRetry
+    simp [run_rA, h1, h2, ha, hb, avgVal, P2.avg, Val.p2, P2.toVal]
+  · intro h
+    unfold midpointOrRetry
+    rcases h with h | h
+    · cases hb : m.att 0 vid2 <;> simp [run_rA, h1, h2, h, hb]
+    · cases ha : m.att 0 vid1 <;> simp [run_rA, h1, h2, h, ha]
+
+/-- **C15 (d)**: cutting the side `AB` of the triangle `ABC` at its midpoint `M` conserves the signed area:
+    `area(A, M, C) + area(M, B, C) = area(A, B, C)` (`cross` = twice the signed area, as in
+    `Vertex2::cross_product_from_vertices`) -/
+theorem C15_cut_area_conserved (A B C : P2) :
+    cross A (P2.avg A B) C + cross (P2.avg A B) B C = cross A B C := by
+  simp only [cross, P2.avg]
+  ring
+
+/-- … and on both sides of an inner edge: the four new triangles cover the two old ones -/
+theorem C15_cut_area_conserved_inner (A B C D : P2) :
+    cross A (P2.avg A B) C + cross (P2.avg A B) B C + cross B (P2.avg A B) D + cross (P2.avg A B) A D
+      = cross A B C + cross B A D := by
+  simp only [cross, P2.avg]
+  ring
+
+/-- **C15 (e), what does hold for the swap**: the specified retriangulation of the quadrilateral `A D B C` (triangles
+    `ADC`, `DBC` instead of `ABC`, `BAD`) conserves the signed area — IF no coordinate moves.  `swap_edge` moves two
+    of them (`C15_D9_witness`). -/
+theorem C15_swap_area_partial (A B C D : P2) :
+    cross A D C + cross D B C = cross A B C + cross B A D := by
+  simp only [cross]
+  ring
+
+/-! ## (e) witnesses of the listed findings (`decide` on the unit square) -/
+
+/-- `unit_triangles(1)`: triangles 1-2-3 and 4-5-6 over the unit square, glued along 2/4 -/
+def unitSquare : Map Val :=
+  { (Map.empty 3 stdStorages 7 : Map Val) with
+    b := #[#[0, 3, 1, 2, 6, 4, 5], #[0, 2, 3, 1, 5, 6, 4], #[0, 0, 4, 0, 2, 0, 0]]
+    a := (Map.empty 3 stdStorages 7 : Map Val).a.setIfInBounds 0
+      #[none, some (.pt 0 0 0), some (.pt 1 0 0), some (.pt 0 1 0), none, none, some (.pt 1 1 0)] }
+
+def tml (c : Nat) : Option Val := some (.tm (.leaf c))
+
+/-- the unit square with anchors: corners 1, 2, 3 are nodes, corner 6 lies on curve 1; boundary edges on curves, the
+    diagonal and both faces on surface 0 (`UNIT_ANCH` of tools/props/c15.py) -/
+def unitSquareAnchored : Map Val :=
+  { unitSquare with
+    a := ((unitSquare.a.setIfInBounds 6 #[none, tml 4, tml 8, tml 12, none, none, tml 5, none]).setIfInBounds 7
+      #[none, tml 1, tml 2, tml 13, none, tml 5, tml 9, none]).setIfInBounds 8
+      #[none, tml 2, none, none, tml 2, none, none, none] }
+
+/-- the first vertex storage after a call -/
+def coords (r : Out Err Unit × Map Val) : Array (Option Val) := rd r.2.a 0
+
+/-- **C15 (e), D9**: `swap_edge(2)` on `unit_triangles(1)` succeeds and moves the corners `(0,0)` and `(1,1)` to
+    `(1/2,0)` and `(1/2,1)`; the area of the region drops from 1 to 1/2 -/
+theorem C15_D9_witness :
+    WF 3 unitSquare ∧
+    (run (swapEdge (stdCfg 3 0) 7 2) unitSquare).1 = .ok () ∧
+    coords (run (swapEdge (stdCfg 3 0) 7 2) unitSquare) =
+      #[none, some (.pt (1/2) 0 0), none, some (.pt 0 1 0), some (.pt (1/2) 1 0), some (.pt 1 0 0), none] ∧
+    -- twice the area before (triangles (0,0)(1,0)(0,1) and (1,0)(1,1)(0,1)) and after
+    cross ⟨0, 0⟩ ⟨1, 0⟩ ⟨0, 1⟩ + cross ⟨1, 0⟩ ⟨1, 1⟩ ⟨0, 1⟩ = 2 ∧
+    cross ⟨1/2, 0⟩ ⟨1/2, 1⟩ ⟨0, 1⟩ + cross ⟨1, 0⟩ ⟨1/2, 1⟩ ⟨1/2, 0⟩ = 1 := by
+  refine ⟨by decide, by decide +kernel, by decide +kernel, by decide +kernel, by decide +kernel⟩
+
+/-- **C15 (e), D15b**: `cut_outer_edge(1, [7, 8, 9])` on the anchored unit square succeeds; the first half of the cut
+    edge keeps its curve anchor, the second half (dart 9, an edge of its own: β2(9) = null) has none -/
+theorem C15_D15b_witness :
+    let m := (unitSquareAnchored.addFreeDarts 3).2
+    let r := run (cutOuterEdge (stdCfg 3 224) 10 1 7 8 9) m
+    r.1 = .ok () ∧ r.2.β 2 9 = 0 ∧ r.2.att 7 1 = tml 1 ∧ r.2.att 7 9 = none := by
+  decide +kernel
+
+/-- **C15 (e), D15c**: `cut_outer_edge(1, [9, 8, 7])` on the unit square succeeds; the new vertex (darts 7 and 9,
+    identifier 7) has no coordinates: the midpoint sits in slot 9 -/
+theorem C15_D15c_witness :
+    let m := (unitSquare.addFreeDarts 3).2
+    let r := run (cutOuterEdge (stdCfg 3 0) 10 1 9 8 7) m
+    r.1 = .ok () ∧ (run (vertexId2 10 9) r.2).1 = .ok 7 ∧ r.2.att 0 7 = none ∧ r.2.att 0 9 = some (.pt (1/2) 0 0) := by
+  decide +kernel
+
+/-- **C15 (e), D15e**: `collapse_edge(5)` on the anchored unit square (vertex 2 a node, vertex 6 on a curve: collapse
+    towards the left end) returns `Ok(2)` and leaves the triangle 4-5-6 dismantled: its three darts are in use, have
+    no β0/β1 image, dart 4 is still 2-sewn to dart 2, nothing is flagged -/
+theorem C15_D15e_witness :
+    let r := run (collapseEdge (stdCfg 3 224) 7 5) unitSquareAnchored
+    r.1 = .ok 2 ∧ r.2.u = unitSquareAnchored.u ∧
+    (∀ d ∈ [4, 5, 6], r.2.β 0 d = 0 ∧ r.2.β 1 d = 0) ∧ r.2.β 2 4 = 2 ∧ r.2.β 2 2 = 4 := by
+  decide +kernel
+
+/-- the 1 x 2 split grid, fully anchored, the four faces on four different surfaces (`TWO_ANCH` of tools/props/c15.py) -/
+def twoCells : Map Val :=
+  { (Map.empty 3 stdStorages 13 : Map Val) with
+    b := #[#[0, 3, 1, 2, 6, 4, 5, 9, 7, 8, 12, 10, 11], #[0, 2, 3, 1, 5, 6, 4, 8, 9, 7, 11, 12, 10],
+           #[0, 0, 4, 0, 2, 0, 7, 6, 10, 0, 8, 0, 0]]
+    a := ((((Map.empty 3 stdStorages 13 : Map Val).a.setIfInBounds 0
+      #[none, some (.pt 0 0 0), some (.pt 1 0 0), some (.pt 0 1 0), none, none, some (.pt 1 1 0), none, none,
+        some (.pt 0 2 0), none, none, some (.pt 1 2 0)]).setIfInBounds 6
+      #[none, tml 4, tml 8, tml 13, none, none, tml 5, none, none, tml 36, none, none, tml 48, none]).setIfInBounds 7
+      #[none, tml 1, tml 2, tml 13, none, tml 5, tml 2, none, tml 2, tml 13, none, tml 5, tml 9, none]).setIfInBounds 8
+      #[none, tml 6, none, none, tml 10, none, none, tml 14, none, none, tml 18, none, none, none] }
+
+/-- **C15 (e), D15a**: `collapse_edge(5)` on the anchored 1 x 2 grid (towards the node at dart 5's origin) succeeds; the
+    face of darts 8, 9 (identifier 7, surface 3 — code 14) survives, receives dart 4 of the removed triangle, becomes
+    face 4 and now reads the anchor of the REMOVED face 4 (surface 2 — code 10) -/
+theorem C15_D15a_witness :
+    let r := run (collapseEdge (stdCfg 3 224) 13 5) twoCells
+    WF 3 twoCells ∧ r.1 = .ok 2 ∧
+    (run (faceId2 13 8) twoCells).1 = .ok 7 ∧ twoCells.att 8 7 = tml 14 ∧ twoCells.att 8 4 = tml 10 ∧
+    (run (faceId2 13 8) r.2).1 = .ok 4 ∧ r.2.att 8 4 = tml 10 ∧ r.2.unused 8 = false := by
+  decide +kernel
+
+/-- the 2 x 2 split grid after `cut_inner_edge(5, [25 … 30])` -/
+def cutGrid : Map Val :=
+  { (Map.empty 3 stdStorages 31 : Map Val) with
+    b := #[#[0, 3, 1, 2, 25, 4, 27, 30, 28, 8, 12, 10, 11, 15, 13, 14, 18, 16, 17, 21, 19, 20, 24, 22, 23, 5, 6, 26, 9, 7, 29],
+           #[0, 2, 3, 1, 5, 25, 26, 29, 9, 28, 11, 12, 10, 14, 15, 13, 17, 18, 16, 20, 21, 19, 23, 24, 22, 4, 27, 6, 8, 30, 7],
+           #[0, 0, 4, 0, 2, 30, 13, 0, 10, 27, 8, 0, 19, 6, 16, 0, 14, 21, 0, 12, 22, 17, 20, 0, 0, 26, 25, 9, 29, 28, 5]]
+    a := (Map.empty 3 stdStorages 31 : Map Val).a.setIfInBounds 0
+      #[none, some (.pt 0 0 0), some (.pt 1 0 0), some (.pt 0 1 0), none, none, some (.pt 1 1 0), none, some (.pt 2 0 0),
+        none, none, none, some (.pt 2 1 0), none, none, some (.pt 0 2 0), none, none, some (.pt 1 2 0), none, none, none,
+        none, none, some (.pt 2 2 0), some (.pt 1 (1/2) 0), none, none, none, none, none] }
+
+/-- **C15 (e), D15d**: `collapse_edge(26)` (no anchors: "to the midpoint") on the edge from the boundary vertex `(0,1)`
+    (identifier 3, open fan) to the interior vertex `(1,1/2)` (identifier 25) succeeds and leaves the vertex at
+    `(1/4,7/8)` — neither an end point nor the midpoint `(1/2,3/4)` -/
+theorem C15_D15d_witness :
+    let r := run (collapseEdge (stdCfg 3 0) 31 26) cutGrid
+    WF 3 cutGrid ∧ (run (vertexId2 31 26) cutGrid).1 = .ok 3 ∧ (run (vertexId2 31 27) cutGrid).1 = .ok 25 ∧
+    cutGrid.β 1 26 = 27 ∧ cutGrid.att 0 3 = some (.pt 0 1 0) ∧ cutGrid.att 0 25 = some (.pt 1 (1/2) 0) ∧
+    r.1 = .ok 3 ∧ r.2.att 0 3 = some (.pt (1/4) (7/8) 0) := by
+  decide +kernel
+
+/-! ## non-vacuity of the hypotheses -/
+
+example : WF 3 unitSquare ∧ C01.InUse unitSquare 2 ∧ (unitSquare.β 1 2 ≠ 0 ∧ unitSquare.β 0 2 ≠ 0) ∧
+    (unitSquare.β 1 (unitSquare.β 2 2) ≠ 0 ∧ unitSquare.β 0 (unitSquare.β 2 2) ≠ 0) := by decide
+
+/-- `C15_swap_preserves_WF` applies to the D9 call (the swap keeps the map well formed, it is the geometry that moves) -/
+example : WF 3 (atomically (swapEdge (stdCfg 3 0) unitSquare.n 2) unitSquare).2 :=
+  C15_swap_preserves_WF _ _ _ (by decide) (by decide) (by decide) (fun _ => by decide)
+
+example : WF 3 (unitSquare.addFreeDarts 3).2 ∧ Spare (unitSquare.addFreeDarts 3).2 7 ∧
+    Spare (unitSquare.addFreeDarts 3).2 8 ∧ Spare (unitSquare.addFreeDarts 3).2 9 := by
+  refine ⟨by decide +kernel, ?_, ?_, ?_⟩ <;> exact ⟨by decide +kernel, by decide +kernel⟩
+
+example : WF 3 (atomically (cutOuterEdge (stdCfg 3 0) (unitSquare.addFreeDarts 3).2.n 1 7 8 9)
+    (unitSquare.addFreeDarts 3).2).2 :=
+  C15_cutOuter_preserves_WF _ _ _ _ _ _ (by decide +kernel) (by decide +kernel) (by decide +kernel)
+    ⟨by decide +kernel, by decide +kernel⟩ ⟨by decide +kernel, by decide +kernel⟩
+    ⟨by decide +kernel, by decide +kernel⟩ (by decide)
+
+example : (atomically (cutOuterEdge (stdCfg 3 0) 10 1 7 8 9) (unitSquare.addFreeDarts 3).2).1 = .ok () := by
+  decide +kernel
+
+example : (atomically (cutInnerEdge (stdCfg 3 0) 13 2 7 8 9 10 11 12) (unitSquare.addFreeDarts 6).2).1 = .ok () := by
+  decide +kernel
+
+example : WF 3 (atomically (cutInnerEdge (stdCfg 3 0) (unitSquare.addFreeDarts 6).2.n 2 7 8 9 10 11 12)
+    (unitSquare.addFreeDarts 6).2).2 :=
+  C15_cutInner_preserves_WF _ _ _ _ _ _ _ _ _ (by decide +kernel) (by decide +kernel) (by decide +kernel)
+    (by decide +kernel) (by decide +kernel)
+    (fun x hx => by
+      have : x = 7 ∨ x = 8 ∨ x = 9 ∨ x = 10 ∨ x = 11 ∨ x = 12 := by simpa using hx
+      rcases this with rfl | rfl | rfl | rfl | rfl | rfl <;> exact ⟨by decide +kernel, by decide +kernel⟩)
+    (by decide) (by decide)
+
+/-- the asserted kernel and the kernel agree on a collapse that succeeds, and the side condition of
+    `C15_collapse_preserves_WF` (newly flagged darts are free) holds there -/
+example : (atomically (collapseEdgeA (stdCfg 3 224) 7 5) unitSquareAnchored).1 = .ok 2 := by decide +kernel
+
+example : WF 3 (atomically (collapseEdgeA (stdCfg 3 224) unitSquareAnchored.n 5) unitSquareAnchored).2 :=
+  C15_collapse_preserves_WF _ _ _ (by decide) (by decide) (by decide +kernel)
+
+/-- an error of a kernel leaves the map unchanged: the swap of a boundary edge -/
+example : (atomically (swapEdge (stdCfg 3 0) 7 1) unitSquare).1 = .err errIncompleteEdge ∧
+    (atomically (swapEdge (stdCfg 3 0) 7 1) unitSquare).2 = unitSquare :=
+  ⟨by decide +kernel, C15_error_leaves_map_unchanged _ _ fun a => by
+    rw [show (atomically (swapEdge (stdCfg 3 0) 7 1) unitSquare).1 = .err errIncompleteEdge from by decide +kernel]
+    simp⟩
+
+example : Gen.Anchors.VertexAnchor.merge (.Node 3) (.Curve 1) = some (.Node 3) ∧
+    Gen.Anchors.VertexAnchor.merge (.Curve 1) (.Curve 2) = none ∧
+    collapseChoice (.Node 3) (.Curve 1) (.Curve 1) = some (.ok .left) := by decide
 
 end HC.C15
